@@ -12,32 +12,54 @@ The abstract cells are the ground truth; pandas objects are *rendered* from them
   embedding          cells: None | [float]  (equal widths)
 """
 import datetime
+import json
 import math
 import warnings
 from fractions import Fraction
 
-from harness import core
+from harness import core, stress
+from harness import matgen as mg
+
+# the Lean model sorts by structural insertion sort (quadratic, recursion as deep as the list): columns with more
+# usable values / rows than this are judged by the textbook oracle only
+MODEL_VALUES = 4200
 
 FLOAT_POOL = [0.0, 1.0, -1.0, 2.0, 3.0, -5.0, 4.0, 0.5, 2.25, -3.5, 0.1, 0.2, 0.3, 1e6, -1e-3, 1e-8, 123456.789,
               7.0, 10.0, -2.0, 1e-300, 6.02e23]
-CAT_VOCAB = ['a', 'b', 'c', 'd', '', ' a', 'A', 'é', '日本', 'long category name', '0', 'nan', 'None']
-TOKENS = ['x', ' x', 'y ', 'z', 'w', 'x y', 'é', 'Z', '']
+CAT_VOCAB = ['a', 'b', 'c', 'd', '', ' a', 'A', 'é', '日本', 'long category name', '0', 'nan', 'None',
+             '-1', '<NA>', 'a\x00', '\x00', ' ', 'sports', 'sportswear', 'É', 'NaN', '-1.0']
+TOKENS = ['x', ' x', 'y ', 'z', 'w', 'x y', 'é', 'Z', '', 'sports', 'sportswear', 'X', '-1', 'nan', 'None', 'a\x00',
+          'x/y', 'y,z', 'p|q', 'u;v']
 FORMATS = ['%Y-%m-%d %H:%M:%S', '%Y-%m-%d', '%Y/%m/%d', '%d.%m.%Y %H:%M', None, 'datetime64']
+# float64 payloads at the edges (sums stay finite): not float32-exact, > 2^24, sentinel look-alikes, denormal
+SPECIAL_NUM = [0.1, 1.0 / 3.0, 2.0 ** 24 + 1, 1700000001.0, 1e39, -1e39, 5e-324, -0.0, 0.5, -0.5, -1.0, 2.0 ** 31 + 1,
+               3.0e38, 1e-38, 2.0 ** 53, 0.0, 1.0]
 EPOCH = datetime.datetime(1970, 1, 1)
 
 
 # --------------------------------------------------------------------------- generation
 
 def _idx(rng, n):
-    return rng.choice([None, None, 'offset', 'perm', 'dup', 'str']) if n > 0 else None
+    return rng.choice([None, None, 'offset', 'perm', 'dup', 'str', 'perm', 'multiindex', 'datetime', 'bigint', 'spread']) if n > 0 else None
 
 
-def gen_numerical(rng):
-    fam = rng.choice(['random', 'random', 'random', 'inf_only', 'all_missing', 'constant', 'single', 'ints', 'ints', 'two',
-                      'long', 'mixed_inf'])
+def gen_numerical(rng, fam=None, size=None):
+    fam = fam or rng.choice(['random', 'random', 'random', 'inf_only', 'all_missing', 'constant', 'single', 'ints', 'ints', 'two',
+                             'long', 'mixed_inf', 'special'])
     n = rng.randint(1, 12)
     dtype = 'float64'
-    if fam == 'random':
+    if fam == 'scale':
+        # a size from the ladder; integers and eighths, so that every partial sum is exact in double precision
+        n = size
+        pool = [float(rng.randint(-1000, 1000)) for _ in range(rng.choice([3, 40, 1000]))] + [0.125, -2.5, 0.5, -1.0]
+        cells = [rng.choice([None, 'inf', '-inf']) if rng.random() < .1 else rng.choice(pool) for _ in range(n)]
+        if all(isinstance(c, float) and c.is_integer() and abs(c) < 120 for c in cells if c is not None) or rng.random() < .3:
+            cells = [None if c is None or isinstance(c, str) else float(int(c)) for c in cells]
+            dtype = rng.choice(['Int64', 'Int32', 'Float64'])
+    elif fam == 'special':
+        cells = [None if rng.random() < .15 else rng.choice(SPECIAL_NUM) for _ in range(n)]
+        dtype = rng.choice(['float64', 'float64', 'Float64'])
+    elif fam == 'random':
         cells = [rng.choice([None, 'inf', '-inf']) if rng.random() < .25 else rng.choice(FLOAT_POOL) for _ in range(n)]
     elif fam == 'mixed_inf':
         cells = [rng.choice(['inf', '-inf', None, rng.choice(FLOAT_POOL)]) for _ in range(n)]
@@ -58,9 +80,11 @@ def gen_numerical(rng):
         n = rng.randint(13, 60)
         cells = [None if rng.random() < .1 else rng.choice(FLOAT_POOL[:14]) for _ in range(n)]
     else:  # ints
-        cells = [float(rng.randint(-6, 6)) for _ in range(n)]
-        dtype = rng.choice(['int64', 'Int64', 'float64'])
-        if dtype == 'Int64':
+        nonneg = rng.random() < .3
+        cells = [float(rng.randint(0 if nonneg else -6, 6)) for _ in range(n)]
+        dtype = rng.choice(['int64', 'Int64', 'float64', 'Int32', 'int32', 'int16', 'Float64', 'Int8'] +
+                           (['uint8', 'UInt8'] if nonneg else []))
+        if dtype[0] in 'IUF':
             cells = [None if rng.random() < .25 else c for c in cells]
     return {'stype': 'numerical', 'family': fam, 'dtype': dtype, 'cells': cells}
 
@@ -73,10 +97,17 @@ def _f32(x):
         return None
 
 
-def gen_sequence(rng):
-    fam = rng.choice(['random', 'random', 'random', 'all_empty', 'all_missing', 'nonfinite_only', 'single', 'ints'])
+def gen_sequence(rng, fam=None, size=None):
+    fam = fam or rng.choice(['random', 'random', 'random', 'all_empty', 'all_missing', 'nonfinite_only', 'single', 'ints',
+                             'special'])
     n = rng.randint(1, 9)
-    pool = FLOAT_POOL[:16]
+    pool = FLOAT_POOL[:16] if fam != 'special' else SPECIAL_NUM
+    if fam == 'scale':
+        # one sequence with a ladder-sized number of entries (exact sums) among ordinary short ones
+        big = [rng.choice(['nan', 'inf']) if rng.random() < .05 else float(rng.randint(-50, 50)) / 8 for _ in range(size)]
+        cells = [None if rng.random() < .2 else [float(rng.randint(-4, 4)) for _ in range(rng.randint(0, 4))] for _ in range(n)]
+        cells.insert(rng.randint(0, len(cells)), big)
+        return {'stype': 'sequence_numerical', 'family': fam, 'cells': cells, 'int_elems': False}
 
     def elem():
         r = rng.random()
@@ -85,7 +116,7 @@ def gen_sequence(rng):
         if r < .2:
             return rng.choice(['inf', '-inf'])
         return rng.choice(pool)
-    if fam == 'random':
+    if fam in ('random', 'special'):
         cells = [None if rng.random() < .2 else [elem() for _ in range(rng.randint(0, 4))] for _ in range(n)]
     elif fam == 'all_empty':
         cells = [None if rng.random() < .3 else [] for _ in range(n)]
@@ -103,13 +134,23 @@ def gen_sequence(rng):
     return {'stype': 'sequence_numerical', 'family': fam, 'cells': cells, 'int_elems': fam == 'ints' and rng.random() < .5}
 
 
-def gen_categorical(rng):
-    fam = rng.choice(['random', 'random', 'ties', 'constant', 'single', 'all_missing', 'two_classes', 'skew'])
+def gen_categorical(rng, fam=None, size=None, long=None):
+    fam = fam or rng.choice(['random', 'random', 'ties', 'constant', 'single', 'all_missing', 'two_classes', 'skew'])
     kind = rng.choice(['str', 'str', 'int'])
-    vocab = rng.sample(CAT_VOCAB, rng.randint(2, 6)) if kind == 'str' else rng.sample(range(-3, 9), rng.randint(2, 6))
+    if kind == 'str':
+        vocab = rng.sample(CAT_VOCAB, rng.randint(2, 6))
+    else:
+        vocab = rng.sample(range(-3, 9), rng.randint(2, 6)) if rng.random() < .8 else rng.sample(mg.INT_SPECIAL + [5, 6], rng.randint(2, 6))
     n = rng.randint(1, 14)
     miss = rng.choice([0.0, 0.2, 0.5])
-    if fam == 'random':
+    if fam == 'scale':
+        # a ladder-sized number of distinct categories (mixed case, prefix relations, sentinel look-alikes), massive ties
+        kind = rng.choice(['str', 'str', 'int'])
+        vocab = mg.synth_values(rng, size, long) if kind == 'str' else rng.sample(range(-5, 4 * size), size)
+        cells = list(vocab) + [None if rng.random() < .1 else vocab[min(int(rng.random() ** 3 * size), size - 1)]
+                               for _ in range(rng.choice([0, 3, size // 2]))]
+        rng.shuffle(cells)
+    elif fam == 'random':
         cells = [None if rng.random() < miss else rng.choice(vocab) for _ in range(n)]
     elif fam == 'skew':
         w = [2 ** -i for i in range(len(vocab))]
@@ -132,18 +173,43 @@ def gen_categorical(rng):
         rng.shuffle(cells)
     else:
         cells = [None] * n
-    dtype = rng.choice(['object', 'str']) if kind == 'str' else 'int'
-    return {'stype': 'categorical', 'family': fam, 'kind': kind, 'dtype': dtype, 'cells': cells}
+    if kind == 'str':
+        dtype = rng.choice(['object', 'str', 'object', 'str', 'category', 'string'])
+    else:
+        big = any(c is not None and abs(c) >= 2 ** 31 - 1 for c in cells)
+        dtype = rng.choice(['int', 'int', 'Int64', 'category'] + ([] if big else ['Int32']))
+    case = {'stype': 'categorical', 'family': fam, 'kind': kind, 'dtype': dtype, 'cells': cells}
+    if dtype == 'category':
+        case['cat_order'] = rng.choice(['sorted', 'reversed', 'shuffled'])
+        case['ordered'] = rng.random() < .3
+    return case
 
 
-def gen_multicategorical(rng):
-    fam = rng.choice(['random', 'random', 'random', 'all_blank', 'all_missing', 'dups', 'ties', 'single'])
+def gen_multicategorical(rng, fam=None, size=None, what=None):
+    fam = fam or rng.choice(['random', 'random', 'random', 'all_blank', 'all_missing', 'dups', 'ties', 'single'])
     mode = rng.choice(['sep', 'sep', 'list'])
-    sep = rng.choice(['|', ',', ';', '||', ', '])
+    sep = rng.choice(['|', ',', ';', '||', ', ', '/'])
     toks = [t for t in rng.sample(TOKENS, rng.randint(2, 6))]
     if mode == 'sep':
         toks = [t for t in toks if all(ch not in t for ch in sep)] or ['x', 'y']
     n = rng.randint(1, 10)
+    if fam == 'scale':
+        # ladder-sized token pool / one cell with a ladder-sized number of tokens / ladder-long tokens
+        k = size if what == 'pool' else rng.choice([3, 17])
+        toks = mg.synth_tokens(rng, k, sep if mode == 'sep' else None, size if what == 'celllen' else None)
+        m = size if what == 'tokens' else None
+        cells = [None if rng.random() < .15 else [rng.choice(toks) for _ in range(rng.randint(0, 4))] for _ in range(n)]
+        if m:
+            cells[rng.randrange(n)] = [rng.choice(toks) for _ in range(m)]
+        if what == 'pool':
+            for t in toks:
+                i = rng.randrange(n)
+                cells[i] = (cells[i] or []) + [t]
+        if mode == 'sep':
+            cells = [None if c is None else sep.join((' ' if rng.random() < .05 else '') + t for t in c) for c in cells]
+        dtype = rng.choice(['object', 'str']) if mode == 'sep' else 'object'
+        return {'stype': 'multicategorical', 'family': fam, 'mc_mode': mode, 'sep': sep if mode == 'sep' else None,
+                'dtype': dtype, 'cells': cells, 'box': rng.choice(['list', 'tuple', 'ndarray']) if mode == 'list' else None}
 
     def cell(k=None):
         k = rng.randint(0, 4) if k is None else k
@@ -166,15 +232,37 @@ def gen_multicategorical(rng):
         cells = [None] * rng.randint(0, 2) + [cell(rng.randint(1, 3))]
         rng.shuffle(cells)
     dtype = rng.choice(['object', 'str']) if mode == 'sep' else 'object'
+    if mode == 'sep' and not any(c is None for c in cells) and rng.random() < .2:
+        dtype = 'string'        # (pd.NA-backed: only without missing cells, see observed_outside_generated_domain)
     return {'stype': 'multicategorical', 'family': fam, 'mc_mode': mode, 'sep': sep if mode == 'sep' else None,
-            'dtype': dtype, 'cells': cells}
+            'dtype': dtype, 'cells': cells, 'box': rng.choice(['list', 'list', 'tuple', 'ndarray', 'set']) if mode == 'list' else None}
 
 
-def gen_timestamp(rng):
-    fam = rng.choice(['random', 'random', 'random', 'even', 'odd', 'all_missing', 'all_garbage', 'single', 'same_year',
-                      'duplicates'])
+def gen_timestamp(rng, fam=None, size=None):
+    fam = fam or rng.choice(['random', 'random', 'random', 'even', 'odd', 'all_missing', 'all_garbage', 'single', 'same_year',
+                             'duplicates'])
     fmt = rng.choice(FORMATS)
     n = rng.randint(1, 11)
+    r = None
+    if rng.random() < .45 or fam == 'scale':
+        # the renderer of harness/matgen.py: %f / %z text, datetime64[s|ms|us|ns] with sub-second parts, tz-aware
+        # datetime64, object columns of datetime / Timestamp.  The abstract cell is the wall-clock second as written.
+        kind = rng.choice(['str', 'str', 'dt64', 'dt64tz', 'dt64tz', 'pyobj'])
+        f = rng.choice([x for x in mg.TIME_FORMATS if x[2] == 1 and (x[3] or x[4] or fam == 'scale')])
+        r = {'kind': kind, 'fmt': f[0], 'pyfmt': f[1], 'dtype': rng.choice(['object', 'str', 'string']), 'unit': rng.choice(['s', 'ms', 'us', 'ns']),
+             'na': rng.choice(['None', 'nan']), 'frac': None, 'tz': None}
+        if kind == 'str':
+            r['frac'] = rng.randint(0, 6) if f[3] else None
+            r['tz'] = rng.choice(mg.TZ_MINUTES) if f[4] else None
+        else:
+            r['fmt'] = r['pyfmt'] = None
+            r['frac'] = rng.randint(0, 6) if (r['unit'] != 's' and rng.random() < .7) else None
+            if kind == 'dt64tz':
+                r['tzname'] = rng.choice(mg.TZ_NAMES)
+            if kind == 'pyobj':
+                r.update(unit='us', pyobj=rng.choice(['datetime', 'Timestamp']), tz=rng.choice([None, rng.choice(mg.TZ_MINUTES)]),
+                         frac=rng.choice([None, rng.randint(0, 6)]))
+        fmt = r['fmt'] if kind == 'str' else 'datetime64'
 
     def t():
         d = datetime.datetime(rng.randint(1700, 2200), rng.randint(1, 12), rng.randint(1, 28),
@@ -188,7 +276,11 @@ def gen_timestamp(rng):
             d = d.replace(second=0)
         return int((d - EPOCH).total_seconds())
     bad = (lambda: rng.choice([None, 'garbage'])) if fmt != 'datetime64' else (lambda: None)
-    if fam == 'random':
+    if fam == 'scale':
+        # a ladder-sized number of unsorted times with repeats and missing entries
+        base = [t() for _ in range(rng.choice([5, 50, size]))]
+        cells = [bad() if rng.random() < .1 else rng.choice(base) for _ in range(size)]
+    elif fam == 'random':
         cells = [bad() if rng.random() < .25 else t() for _ in range(n)]
     elif fam in ('even', 'odd'):
         k = 2 * rng.randint(1, 4) + (1 if fam == 'odd' else 0)
@@ -208,19 +300,26 @@ def gen_timestamp(rng):
     else:
         base = [t() for _ in range(rng.randint(1, 3))]
         cells = [rng.choice(base) for _ in range(n)]
-    return {'stype': 'timestamp', 'family': fam, 'fmt': fmt, 'cells': cells}
+    case = {'stype': 'timestamp', 'family': fam, 'fmt': fmt, 'cells': cells}
+    if r is not None:
+        case['r'] = r
+    return case
 
 
-def gen_embedding(rng):
-    fam = rng.choice(['random', 'random', 'missing_first', 'all_missing', 'single', 'width0'])
+def gen_embedding(rng, fam=None, size=None):
+    fam = fam or rng.choice(['random', 'random', 'missing_first', 'all_missing', 'single', 'width0'])
     w = rng.randint(1, 5) if fam != 'width0' else 0
     n = rng.randint(1, 8)
+    if fam == 'scale':
+        w, fam2 = size, rng.choice(['random', 'missing_first'])
+    else:
+        fam2 = fam
 
     def vec():
         return [rng.choice(FLOAT_POOL[:12]) for _ in range(w)]
-    if fam == 'random':
+    if fam2 == 'random':
         cells = [vec() for _ in range(n)]
-    elif fam == 'missing_first':
+    elif fam2 == 'missing_first':
         cells = [None] * rng.randint(1, 2) + [None if rng.random() < .3 else vec() for _ in range(n)] + [vec()]
     elif fam == 'all_missing':
         cells = [None] * n
@@ -228,7 +327,7 @@ def gen_embedding(rng):
         cells = [vec()]
     else:
         cells = [vec() for _ in range(n)]
-    return {'stype': 'embedding', 'family': fam, 'cells': cells}
+    return {'stype': 'embedding', 'family': fam, 'cells': cells, 'box': rng.choice(['list', 'list', 'ndarray', 'tuple', 'ndarray32'])}
 
 
 def gen_text_embedded(rng):
@@ -243,9 +342,47 @@ GENS = {'text_embedded': gen_text_embedded, 'numerical': gen_numerical, 'sequenc
 ORDER = ['numerical', 'categorical', 'multicategorical', 'sequence_numerical', 'timestamp', 'embedding']
 
 
+SCALE_KINDS = [('numerical', None), ('categorical', None), ('timestamp', None), ('sequence_numerical', None),
+               ('multicategorical', 'pool'), ('multicategorical', 'tokens'), ('multicategorical', 'celllen'),
+               ('categorical', 'celllen'), ('embedding', None), ('numerical', None), ('timestamp', None)]
+
+
+def gen_scaled(rng, level, which, top=False):
+    """a column with ONE dimension from the size ladder of the stress level (rows / usable values, categories, token
+    pool, tokens per cell, cell length, sequence length, embedding width)"""
+    st, what = SCALE_KINDS[which % len(SCALE_KINDS)]
+    cap = 4097 if (st == 'embedding' and level < 2) else None
+    if top:
+        size = max(x for x in stress.ladder(level) if cap is None or x <= cap) + rng.choice([0, 1, 2])
+    else:
+        size = stress.pick_size(rng, level, cap)
+    if st == 'numerical':
+        case = gen_numerical(rng, 'scale', size)
+    elif st == 'categorical':
+        if what == 'celllen':
+            case = gen_categorical(rng, 'scale', rng.choice([3, 9]), long=size)
+        else:
+            case = gen_categorical(rng, 'scale', size)
+    elif st == 'timestamp':
+        case = gen_timestamp(rng, 'scale', size)
+    elif st == 'sequence_numerical':
+        case = gen_sequence(rng, 'scale', size)
+    elif st == 'multicategorical':
+        case = gen_multicategorical(rng, 'scale', size, what)
+    else:
+        case = gen_embedding(rng, 'scale', size)
+    case['scale'] = [what or {'numerical': 'rows', 'categorical': 'categories', 'timestamp': 'rows',
+                              'sequence_numerical': 'seqlen', 'embedding': 'embwidth'}[st], size]
+    return _finish(rng, case)
+
+
 def gen_case(rng):
     st = rng.choice(ORDER) if rng.random() > .04 else 'text_embedded'
-    case = GENS[st](rng)
+    return _finish(rng, GENS[st](rng))
+
+
+def _finish(rng, case):
+    st = case['stype']
     n = len(case['cells'])
     case['index'] = _idx(rng, n)
     case['index_seed'] = rng.randint(0, 10 ** 6)
@@ -258,7 +395,27 @@ def gen_case(rng):
     if st in ('embedding', 'text_embedded') and case['mode'] == 'dataset' and n > 0:
         # a second column of the embedding group placed before 'c', so that the block offsets are not trivial
         case['extra_emb_width'] = rng.choice([None, 1, 2, 3, 7])
+    if rng.random() < .25:
+        case['twice'] = True        # history: the statistics are computed a second time from the same Series object
+    if st == 'multicategorical' and case.get('mc_mode') == 'sep' and rng.random() < .2:
+        # the same raw texts go through the statistics under ANOTHER separator first (shared raw values, other configuration)
+        case['prelude_sep'] = rng.choice([x for x in ['|', ',', ';', '/', ' '] if x != case['sep']])
+    if st == 'timestamp' and case.get('fmt') not in (None, 'datetime64') and rng.random() < .2:
+        case['prelude_fmt'] = rng.choice([x for x in ['%d/%m/%Y %H:%M:%S', '%m/%d/%Y %H:%M:%S', '%Y-%m-%d'] if x != case['fmt']])
     return case
+
+
+def model_feasible(case):
+    st, cells = case['stype'], case['cells']
+    if len(cells) > MODEL_VALUES:
+        return False
+    if st == 'sequence_numerical':
+        return sum(len(c) for c in cells if c) <= MODEL_VALUES
+    if st == 'multicategorical':
+        return sum((len(c) if isinstance(c, list) else c.count(case['sep']) + 1) for c in cells if c) <= MODEL_VALUES
+    if st == 'embedding':
+        return sum(len(c) for c in cells if c) <= 40000
+    return True
 
 
 # --------------------------------------------------------------------------- rendering
@@ -296,6 +453,18 @@ def index_for(case):
         return p
     if kind == 'dup':
         return [r.randint(0, max(0, n // 2)) for _ in range(n)]
+    if kind == 'spread':
+        return r.sample(range(-10 ** 6, 10 ** 7), n)
+    if kind == 'bigint':
+        p = [2 ** 40 + i for i in range(n)]
+        r.shuffle(p)
+        return p
+    if kind == 'multiindex':
+        import pandas as pd
+        return pd.MultiIndex.from_tuples([(r.randint(0, 2), r.choice('abc')) for _ in range(n)])
+    if kind == 'datetime':
+        import pandas as pd
+        return pd.DatetimeIndex(pd.to_datetime([f'20{r.randint(10, 30)}-{r.randint(1, 12):02d}-{r.randint(1, 28):02d}' for _ in range(n)]))
     return [f'r{r.randint(0, 99)}_{i}' for i in range(n)]
 
 
@@ -312,15 +481,23 @@ def render(case):
         dt = case['dtype']
         if dt in ('float64', 'float32'):
             ser = pd.Series([_flt(c) for c in cells], dtype=dt, index=idx)
-        elif dt == 'int64':
-            ser = pd.Series([int(c) for c in cells], dtype='int64', index=idx)
+        elif dt == 'Float64':
+            ser = pd.Series([pd.NA if c is None else _flt(c) for c in cells], dtype=dt, index=idx)
+        elif dt[0] in 'iu':
+            ser = pd.Series([int(c) for c in cells], dtype=dt, index=idx)
         else:
-            ser = pd.Series([None if c is None else int(c) for c in cells], dtype='Int64', index=idx)
+            ser = pd.Series([None if c is None else int(c) for c in cells], dtype=dt, index=idx)
     elif st == 'sequence_numerical':
         conv = (lambda x: int(x) if case.get('int_elems') and not isinstance(x, str) else _flt(x))
         ser = pd.Series([None if c is None else [conv(x) for x in c] for c in cells], dtype=object, index=idx)
     elif st == 'categorical':
-        if case['kind'] == 'str':
+        if case['dtype'] == 'category':
+            col = {'stype': 'categorical', 'cells': cells, 'r': {'dtype': 'category', 'cat_order': case.get('cat_order'),
+                                                                 'cat_seed': case.get('index_seed', 0), 'ordered': case.get('ordered')}}
+            ser = pd.Series(mg.render_cells(col)[0], index=idx)
+        elif case['dtype'] in ('string', 'Int64', 'Int32'):
+            ser = pd.Series([pd.NA if c is None else c for c in cells], dtype=case['dtype'], index=idx)
+        elif case['kind'] == 'str':
             ser = pd.Series(list(cells), dtype=object, index=idx)
             if case['dtype'] == 'str':
                 ser = ser.astype('str') if not any(c is None for c in cells) else pd.Series(list(cells), dtype='str', index=idx)
@@ -332,12 +509,18 @@ def render(case):
     elif st == 'multicategorical':
         sep = case['sep']
         if case['mc_mode'] == 'sep':
-            ser = pd.Series(list(cells), dtype='str' if case['dtype'] == 'str' else object, index=idx)
+            ser = pd.Series(list(cells), dtype=case['dtype'] if case['dtype'] in ('str', 'string') else object, index=idx)
         else:
-            ser = pd.Series([None if c is None else list(c) for c in cells], dtype=object, index=idx)
+            box = {'tuple': tuple, 'set': set, 'ndarray': lambda c: np.array(list(c), dtype=object)}.get(case.get('box'), list)
+            ser = mg._series([None if c is None else box(c) for c in cells], 'object', idx)
     elif st == 'timestamp':
         fmt = case['fmt']
-        if fmt == 'datetime64':
+        if case.get('r'):
+            col = {'stype': 'timestamp', 'r': case['r'], 'cells': [{'bad': c} if c == 'garbage' else c for c in cells]}
+            vals, dt = mg.render_cells(col)
+            ser = mg._series(vals, dt, idx)
+            fmt = case['r']['fmt'] if case['r']['kind'] == 'str' else None
+        elif fmt == 'datetime64':
             vals = [pd.NaT if c is None else (EPOCH + datetime.timedelta(seconds=c)) for c in cells]
             ser = pd.Series(pd.to_datetime(pd.Series(vals, dtype=object), errors='coerce').values, index=idx)
             fmt = None
@@ -345,7 +528,9 @@ def render(case):
             ser = pd.Series([c if (c is None or c == 'garbage') else render_time(c, fmt) for c in cells],
                             dtype=object, index=idx)
     elif st == 'embedding':
-        ser = pd.Series([None if c is None else [float(x) for x in c] for c in cells], dtype=object, index=idx)
+        box = {'ndarray': lambda c: np.array(c, dtype='float64'), 'ndarray32': lambda c: np.array(c, dtype='float32'),
+               'tuple': tuple}.get(case.get('box'), list)
+        ser = mg._series([None if c is None else box([float(x) for x in c]) for c in cells], 'object', idx)
     elif st == 'text_embedded':
         ser = pd.Series(list(cells), dtype='str' if case['dtype'] == 'str' else object, index=idx)
     else:
@@ -434,6 +619,13 @@ def run_real(case):
         ser, stype, sep, fmt = render(case)
         before = ser.copy(deep=True)
         try:
+            if case.get('prelude_sep'):
+                compute_col_stats(ser, stype, sep=case['prelude_sep'])
+            if case.get('prelude_fmt'):
+                compute_col_stats(ser, stype, time_format=case['prelude_fmt'])
+        except Exception:  # noqa   (the prelude's own outcome is not judged)
+            pass
+        try:
             stats = compute_col_stats(ser, stype, sep=sep, time_format=fmt)
             out['direct'] = canon_stats(stats, st)
             if st in ('categorical', 'multicategorical'):
@@ -441,6 +633,13 @@ def run_real(case):
         except Exception as e:  # noqa
             out['direct'] = 'raises'
             out['direct_error'] = f'{type(e).__name__}: {e}'[:200]
+        if case.get('twice') and out['direct'] != 'raises':
+            try:
+                again = canon_stats(compute_col_stats(ser, stype, sep=sep, time_format=fmt), st)
+                out['second_call'] = 'same' if json.dumps(again, sort_keys=True, default=str) == \
+                    json.dumps(out['direct'], sort_keys=True, default=str) else 'differs'
+            except Exception as e:  # noqa
+                out['second_call'] = f'raises {type(e).__name__}'
         try:
             same = before.equals(ser) or (before.isna() == ser.isna()).all() and before.astype(str).equals(ser.astype(str))
         except Exception:
@@ -607,8 +806,11 @@ def oracle(case, real):
     # bridge: the i-th listed category is the one encoded as index i
     if real.get('bridge') is not None and real.get('obs_ds') is not None:
         cats = real['obs_ds'][0]
+        pos = {}
+        for i, k in enumerate(cats):
+            pos.setdefault(k, i)           # (== list.index: position of the first listing)
         if st == 'categorical':
-            exp = [-1 if c is None else (cats.index(c) if c in cats else -1) for c in case['cells']]
+            exp = [-1 if c is None else pos.get(c, -1) for c in case['cells']]
         else:
             exp = []
             for c in case['cells']:
@@ -619,10 +821,50 @@ def oracle(case, real):
                     toks = set() if c.strip() == '' else {t.strip() for t in c.split(case['sep'])}
                 else:
                     toks = set(c)
-                exp.append(sorted(cats.index(t) for t in toks if t in cats))
+                exp.append(sorted(pos[t] for t in toks if t in pos))
         if real['bridge'] != exp:
             return (f'{st}/index-space', 'the i-th listed category is not the one encoded as index i in the TensorFrame',
                     exp, real['bridge'])
+    if real.get('second_call') not in (None, 'same'):
+        return (f'{st}/second-call', 'computing the statistics a second time from the same Series gives another result',
+                'the same statistics', real['second_call'])
     if not real.get('input_unchanged', True):
         return (f'{st}/mutates', 'compute_col_stats modified its input series', 'unchanged', 'changed')
     return None
+
+
+def probe_outside_domain():
+    """inputs the hardening families touched but that are NOT generated, with what the live code does on them"""
+    import numpy as np
+    import pandas as pd
+    import torch_frame
+    from torch_frame.data.stats import compute_col_stats, StatType
+    out = []
+
+    def run(what, why, ser, st, show, **kw):
+        try:
+            with warnings.catch_warnings():
+                warnings.simplefilter('ignore')
+                obs = show(compute_col_stats(ser, st, **kw))
+        except Exception as e:   # noqa
+            obs = f'raises {type(e).__name__}: {str(e)[:140]}'
+        out.append({'input': what, 'observed': str(obs)[:300], 'why_not_generated': why})
+    run("numerical column [1.7e308, 1.7e308]", 'the float64 sum overflows (mean = inf, std = nan): finite arithmetic of numpy, not the '
+        'definition; generated magnitudes keep every partial sum finite',
+        pd.Series([1.7e308, 1.7e308]), torch_frame.numerical, lambda s: (s[StatType.MEAN], s[StatType.STD]))
+    run("numerical column of dtype float32 / float16", 'numpy accumulates in the column\'s own precision; compared only in float64',
+        pd.Series([0.1, 0.2, 0.3], dtype='float32'), torch_frame.numerical, lambda s: s[StatType.MEAN])
+    run("categorical column pd.Categorical(['b','a',None], categories=['c','zz','b','a'])",
+        'unused declared categories are listed with count 0 (see C02); generated CategoricalDtype columns declare exactly the observed values',
+        pd.Series(pd.Categorical(['b', 'a', None], categories=['c', 'zz', 'b', 'a'])), torch_frame.categorical, lambda s: s[StatType.COUNT])
+    run("timestamp text column with two different UTC offsets under '%Y-%m-%d %H:%M:%S %z'",
+        'pandas.to_datetime refuses mixed offsets without utc=True; one offset per column is generated',
+        pd.Series(['2001-12-31 23:00:00 +0530', '1999-12-31 23:59:59 -0800'], dtype=object), torch_frame.timestamp,
+        lambda s: s[StatType.YEAR_RANGE], time_format='%Y-%m-%d %H:%M:%S %z')
+    run("timestamp column in a zone with daylight-saving transitions (e.g. datetime64[ns, Europe/Berlin])",
+        'wall-clock order and instant order differ inside the repeated hour; only fixed-offset zones are generated',
+        pd.Series(pd.to_datetime(['2021-10-31 00:30:00', '2021-10-31 01:30:00'])).dt.tz_localize('UTC').dt.tz_convert('Europe/Berlin'),
+        torch_frame.timestamp, lambda s: s[StatType.NEWEST_TIME].tolist())
+    run("numerical column pd.Series([True, False, True])", 'np.quantile cannot subtract booleans; not a numerical column',
+        pd.Series([True, False, True]), torch_frame.numerical, lambda s: s[StatType.QUANTILES])
+    return out
